@@ -83,7 +83,7 @@ fn inverse_affine<T: Sx, M: Inv4<T>>() {
     assume(ne(n, k(0)));
     let eps = T::epsilon();
     for i in 0..3 {
-        assume(gt(s[i] * s[i], eps));
+        assume(gt(s[i] * s[i], eps * k(256))); // "scales not negligibly small": clear of the code's |x| > EPS select, whatever its exact threshold
     }
     // M = T * R * S : column j of the rotation block is scaled by s_j
     for i in 0..3 {
